@@ -122,6 +122,14 @@ Proof.
 Qed.
 Print Assumptions c07_resend.
 
+(* forwarding is lossless: a hop that sends the packet it received on again through the same
+   codec delivers exactly what it received (error-code packets included: whatever the payload
+   was, the rebuilt integer re-encodes to a varint that decodes to itself) *)
+Theorem c07_forward : forall p,
+  v1_result (v1_result p) = v1_result p /\ v2_result (v2_result p) = v2_result p.
+Proof. intros p. split; [exact (v1_result_idem p)|exact (v2_result_idem p)]. Qed.
+Print Assumptions c07_forward.
+
 (* "An error code placed on a packet is the code the receiver reads after the packet crossed the
    wire": every int32 code, both codecs, any compression threshold, with or without the cipher *)
 Theorem c07_errno_wire : forall c thr enc e p q, coders_ok c -> clean (flg p) -> in_s 32 e ->
